@@ -29,10 +29,14 @@ META = {
                     "point satisfying the constraint extends to a feasible point through a ghost witness).  Complete "
                     "over coefficient values, multipliers, offsets and the point; argument length <= 2-3."),
     "bounds": "atom argument length 2 (vector atoms) / 2 elements (element-wise atoms); one constraint per model plus bounds",
-    "trusted_base": ["z3/cvc5 (NRA + EUF)", "M5/M6: the textbook cone forms of exp/log/entropy/softplus/KL (mathematics)", "ShimCSR, NumPy on object arrays"],
+    "trusted_base": ["z3/cvc5 (NRA + EUF)", "M5: the textbook cone forms of exp/log/plog/entropy/softplus/KL on the interior of the cone: Lean-checked (lean/Lemmas.lean cone_form_*, job lemmas-lean); the closure c = 0 is not examined", "ShimCSR, NumPy on object arrays"],
     "assumptions": ["A-UFEXP: exponential-cone atoms are judged through an uninterpreted cone predicate",
                     "p-norm/power/geometric-mean: call-site contracts here, the tower lemma itself in C07; 'N' p-norms via exponential cones only through a sampled numerical stand-in (ECOS); not covered: log-det/root-det LMIs"],
 }
+
+
+# lemmas over the contracts, checked by Lean 4 + Mathlib on every run (lean/Lemmas.lean, rverif/lemmas.py)
+LEMMAS = ["cone_form_exp", "cone_form_log", "cone_form_plog", "cone_form_entropy", "cone_form_kl", "cone_form_softplus"]
 
 
 def SOURCES():
